@@ -31,7 +31,7 @@ for s in sys.argv[4:]:
         v = I(int(p[1]), int(p[2]))
     ov[int(i) - 1] = v
 t0 = time.time()
-ret = D.run_root(f, ov)
+ret = D.run_root(f, ov or None)
 print("fn", f["path"], "steps", D.ip.steps, "%.2fs" % (time.time() - t0))
 print("ret:", show_val(ret, 5)[:600] if ret is not None else None)
 for x in D.skipped + D.errors:
